@@ -105,12 +105,16 @@ class _NPProxy:
         self.buf = np.full(size + 2 * self.pad, GUARD, dtype)
         self.view = self.buf[self.pad:self.pad + size]
         self.view[:] = 0
+        self.ref = self.buf[:self.pad].tobytes()
         return self.view
 
     def guard_damage(self):
         if self.buf is None:
             return 0
         p = self.pad
+        if self.buf[:p].tobytes() == self.ref \
+                and self.buf[len(self.buf) - p:].tobytes() == self.ref:
+            return 0
         return int((self.buf[:p] != GUARD).sum()
                    + (self.buf[len(self.buf) - p:] != GUARD).sum())
 
@@ -916,19 +920,21 @@ def run(ctx: Ctx) -> None:
     e32 = ("sym", 4, [1, 2 ** 29 - 1, 2 ** 29])
     big = ("sym", 4, [1, 10 ** 12])
     met = [("met6", k, None) for k in range(3)]
+    f4b = ("sym", 4, [1, 2])
     _warm([f4, e8, e16, e32])
     agg = {}
     # engine 2: kernel closure
     for fam in (f4, f4z, f5, e8, e16, e32, big):
         _kernel(ctx, agg, fam, "ea")
     for fam in (f4, f4z, e8, e16s):
-        _kernel(ctx, agg, fam, "fea", 5)
-    _kernel(ctx, agg, f5, "fea", 4 if quick else 5)
+        _kernel(ctx, agg, fam, "fea", 8 if quick else 12)
+    _kernel(ctx, agg, f5, "fea", 5 if quick else 6)
     if quick:
-        _kernel(ctx, agg, met[0], "ea", 0, 0, 1 << 10)
-        ctx.cap("quick: 6 cities only for the EA kernel on the first 1024 "
-                "perturbations of one metric base matrix; FEA kernel on 5 "
-                "cities to depth 4")
+        _kernel(ctx, agg, met[0], "ea", 0, 0, 1 << 12)
+        _kernel(ctx, agg, ("met6", 1, 2), "fea", 3)
+        ctx.cap("quick, 6 cities: EA kernel on the first 4096 perturbations "
+                "of one metric base matrix, FEA kernel on 4 perturbations "
+                "to depth 3")
     else:
         for fam in met:
             _kernel(ctx, agg, fam, "ea")
@@ -938,20 +944,25 @@ def run(ctx: Ctx) -> None:
     # engine 1: the real solve() under scripted randomness
     tot_runs = 0
     tot_agree = 0
-    plan = [(f4, 3 if quick else 4, None, True),
-            (f4z, 2 if quick else 3, None, False),
-            (e8, 2, None, False),
-            (f5, 2 if quick else 3, None, True)]
-    if not quick:
-        plan += [(met[1], 2, 64, False), (e16s, 3, None, False),
-                 (big, 3, None, False)]
+    if quick:
+        plan = [(f4, 2, None, True), (f4b, 3, None, False),
+                (f5, 2, 64, True)]
+        ctx.cap("quick, solve(): 3 loop iterations only on the 64 4-city "
+                "matrices over {1,2}; 5 cities only on the first 64 "
+                "matrices, 2 iterations")
+    else:
+        plan = [(f4, 3, None, True), (f4b, 4, None, False),
+                (f4z, 3, None, False), (e8, 2, None, False),
+                (f5, 2, None, True), (f5, 3, 16, False),
+                (("met6", 1, 3), 2, None, False), (e16s, 3, None, False),
+                (big, 3, None, False)]
+        ctx.cap("solve(): 4 loop iterations only on the 64 4-city matrices "
+                "over {1,2}; 5 cities: 3 iterations on the first 16 "
+                "matrices; 6 cities: 8 matrices, 2 iterations")
     for fam, depth, hi, short in plan:
         r, a = _solve(ctx, fam, depth, 0, hi, ALGOS, short)
         tot_runs += r
         tot_agree += a
-    if not quick:
-        ctx.cap("solve() on 6 cities: 64 perturbations of one base matrix, "
-                "2 loop iterations")
     classes = 0
     for algo in ALGOS:
         classes += int((agg[algo] > 0).sum())
